@@ -32,13 +32,20 @@ type Op struct {
 	CT     time.Duration `json:"ct_offset_ns,omitempty"` // client timestamp relative to T0
 	Svc    string        `json:"svc,omitempty"`
 	D      time.Duration `json:"advance_ns,omitempty"`
+	// Zone: the client time is held in a freshly allocated time zone (what decoding a KerberosTime written with
+	// a zone offset gives); the instant, and therefore the authenticator's identity, is the same
+	Zone bool `json:"ctime_in_fresh_zone,omitempty"`
 }
 
 func (o Op) String() string {
 	if o.Kind == "advance" {
 		return fmt.Sprintf("advance(%v)", o.D)
 	}
-	return fmt.Sprintf("present(%s,ct=T0%+v,%s)", o.Client, o.CT, o.Svc)
+	z := ""
+	if o.Zone {
+		z = ",zone+0130"
+	}
+	return fmt.Sprintf("present(%s,ct=T0%+v,%s%s)", o.Client, o.CT, o.Svc, z)
 }
 
 func (o Op) ident() string { return fmt.Sprintf("%s|%d|%s", o.Client, o.CT, o.Svc) }
@@ -99,6 +106,9 @@ func authenticator(o Op) (types.PrincipalName, types.Authenticator) {
 		CName:  types.PrincipalName{NameType: nametype.KRB_NT_PRINCIPAL, NameString: []string{o.Client + clientSuffix}},
 		CTime:  ct.Truncate(time.Second),
 		Cusec:  int(ct.Sub(ct.Truncate(time.Second)) / time.Microsecond),
+	}
+	if o.Zone {
+		a.CTime = a.CTime.In(time.FixedZone("", 5400))
 	}
 	sn := types.PrincipalName{NameType: nametype.KRB_NT_SRV_HST, NameString: []string{"HTTP", o.Svc}}
 	return sn, a
@@ -256,6 +266,7 @@ func Run(c *engine.Ctx) {
 	}
 	c.Cov["bound_completed"] = completed
 	histories(c)
+	throughVerifyAPREQ(c)
 	racePass(c)
 	c.Cov["rule"] = "schedules: every schedule of each scenario within the preemption bound (distinct = distinct (thread,authenticator,verdict) outcome vectors per scenario); histories: every event sequence up to the depth, deduplicated by canonical (cache dump, reference set) relative to the clock (distinct = canonical states in which a replay verdict was exercised)"
 }
